@@ -21,7 +21,7 @@ ENGINE_DOC = {
     "log_check": "logging: generated logger trees and event scripts in child processes, routing rule of the statement, shutdown races, slow sink",
     "enc_roller": "JSON / pattern encoders with an independent parser, rolling file appender directory audit under a scripted clock",
 }
-KIND_DOC = {"miri": "Miri (tree borrows) interpretation of the same engine", "asan": "AddressSanitizer+LeakSanitizer build of the same engine",
+KIND_DOC = {"miri": "Miri (aliasing models off) interpretation of the same engine", "asan": "AddressSanitizer+LeakSanitizer build of the same engine",
             "tsan": "ThreadSanitizer (-Zbuild-std) build of the same engine"}
 
 
